@@ -5,11 +5,12 @@
 // ops: [0 mode v] construction mode   0 ctor(fn(promise))  1 ctor(fn -> future)  2 default + get_promise()
 //                                     3 default + init_if_needed + copy + get_promise() on the copy  4 set_value(v)
 //                                     5 ctor(fn -> async coroutine .start()): the coroutine produces the result
+//                                     6 default + init_if_needed, copies to polling/dropping users, THEN get_promise()
 //      [1 kind d] resolver            0 value d  1 exception d  2 drop
 //      [2 cp kind] user               cp: 0 use the handle as received  1 copy-construct and drop the original
 //                                         2 copy-assign onto a live handle (old state released), drop the original
 //                                         3 move-assign onto a live handle  4 self-assignment
-//                                     kind 0 drop  1 poll ready()/value()  2 co_await  3 sync()  4 callback awaiter
+//                                     kind 0 drop  1 poll ready()/value()  2 co_await  3 sync()  4 callback awaiter  5 join()
 //      [9 ...] schedule
 // The harness contains no expected values.
 #define VH_DEFINE_NEW
@@ -30,7 +31,7 @@ struct counted {
     long v;
     counted(long x) : v(x) { live++; }
     counted(const counted &o) : v(o.v) { live++; }
-    counted(counted &&o) : v(o.v) { live++; }
+    counted(counted &&o) : v(o.v) { live++; o.v = -777; }   // a moved-from value is recognisable
     ~counted() { live--; }
 };
 
@@ -89,9 +90,12 @@ static void read_into(shared_future<T> &h, Seen &s) {
     try {
         if constexpr (std::is_void_v<T>) {
             h.value();
+            h.value();
             s.datum = 0;
         } else {
             s.datum = traits<T>::get(h.value());
+            // the value can be read any number of times: a second read must give the same complete value
+            if (traits<T>::get(h.value()) != s.datum) s.datum = -888;
         }
         s.kind = 1;
     } catch (const await_canceled_exception &) {
@@ -193,11 +197,11 @@ static void run_case(const vh::Case &cs) {
     std::vector<long> sched;
     for (auto &op : cs.ops) {
         if (op.empty()) continue;
-        if (op[0] == 0 && op.size() == 3 && op[1] >= 0 && op[1] <= 5) {
+        if (op[0] == 0 && op.size() == 3 && op[1] >= 0 && op[1] <= 6) {
             if (!have_mode) { mode = op[1]; mval = op[2]; have_mode = true; }
         } else if (op[0] == 1 && op.size() == 3 && op[1] >= 0 && op[1] <= 2) {
             if (!have_res) { rkind = op[1]; rdatum = op[2]; have_res = true; }
-        } else if (op[0] == 2 && op.size() == 3 && op[1] >= 0 && op[1] <= 4 && op[2] >= 0 && op[2] <= 4) {
+        } else if (op[0] == 2 && op.size() == 3 && op[1] >= 0 && op[1] <= 4 && op[2] >= 0 && op[2] <= 5) {
             users.push_back({op[1], op[2]});
         } else if (op[0] == 9) {
             sched.insert(sched.end(), op.begin() + 1, op.end());
@@ -255,8 +259,22 @@ static void run_case(const vh::Case &cs) {
                 case 5:
                     sf.emplace([&] { return producer<T>(gate, &pavail, rkind, rdatum).start(); });
                     break;
+                case 6:
+                    // late initialisation with copies handed out (to users that only poll or drop) before get_promise()
+                    sf.emplace();
+                    sf->init_if_needed();
+                    for (int j = 0; j < nu; j++) {
+                        if (users[j].kind > 1) continue;
+                        ctl::point("sf_inc");
+                        uh[j].emplace(*sf);
+                        given[j] = true;
+                    }
+                    prom.emplace(*sf);
+                    pavail = true;
+                    break;
             }
             for (int j = 0; j < nu; j++) {
+                if (given[j].load()) continue;
                 ctl::point("sf_inc");
                 if (mode == 3 && (j & 1)) uh[j].emplace(*sf2);
                 else uh[j].emplace(*sf);
@@ -346,6 +364,16 @@ static void run_case(const vh::Case &cs) {
                     case 2: coro_waiter<T>(std::move(h), s).detach(); break;
                     case 3:
                         h.sync();
+                        read_into(h, s);
+                        s.runs++;
+                        h = SF();
+                        s.done = 1;
+                        break;
+                    case 5:
+                        try {
+                            h.join();   // same as wait(): throws what value() throws
+                        } catch (...) {
+                        }
                         read_into(h, s);
                         s.runs++;
                         h = SF();
